@@ -126,6 +126,24 @@ def run(R, tier):
         cases.append({'check': algs.with_alg(ref, chk), 'show': algs.with_alg(ref, '(a_c2b A, a_sig A, a_start A, wf_alg A)', '([], [], 0, false)'),
                       'defs': [dfn], 'meta': {'spec': spec, 'obs': 'canon2bin'}})
         R.case((desc, 'c2b'), sample={'algebra': desc, 'observation': 'canon2bin/signature/start_index/wf'})
+        # 1b. a copy of the algebra object (copy.copy, dataclasses.replace without changes) describes the same algebra: signature in
+        #     the same order, same blades, same squares of the generators
+        if d >= 1 and d <= 6:
+            import copy as _copy, dataclasses as _dc
+            for how, mk_copy in (('copy.copy', _copy.copy), ('dataclasses.replace', lambda a_: _dc.replace(a_))):
+                R.case((desc, 'copy', how), True)
+                try:
+                    b_ = mk_copy(alg)
+                    same_sig = [int(x_) for x_ in b_.signature] == [int(x_) for x_ in alg.signature] and dict(b_.canon2bin) == dict(alg.canon2bin)
+                    gens = [n_ for n_ in alg.canon2bin if len(n_) == 2]
+                    sq = lambda A_: [[(int(k_), v_) for k_, v_ in zip((A_.blades[n_] * A_.blades[n_]).keys(), (A_.blades[n_] * A_.blades[n_]).values())] for n_ in gens]
+                    ok_ = same_sig and sq(b_) == sq(alg) and int(b_.start_index) == int(alg.start_index)
+                    what_ = f'signature {list(b_.signature)}, squares of the generators {sq(b_)} (original: {list(alg.signature)}, {sq(alg)})'
+                except Exception as e:  # noqa
+                    ok_, what_ = False, f'raised {type(e).__name__}: {e}'[:200]
+                if not ok_:
+                    R.violation({'clause': 'copy', 'basis': algs.kind(spec)}, {'algebra': spec, 'how': how},
+                                f'{how} of Algebra({desc}) is a different algebra: {what_}')
         # 2. sign table
         if d <= 6:
             items = list(alg.signs.items())
